@@ -793,8 +793,12 @@ fire('c12-shallow-copy', 'C12',
      [(POL, "        self.registered_rules[default.name] = copy.deepcopy(default)", "        self.registered_rules[default.name] = copy.copy(default)")], 'C12.COPY-IN')
 fire('c12-ruledefault-no-copy', 'C12',
      [(POL, "        self._deprecated_rule = copy.deepcopy(deprecated_rule) or []", "        self._deprecated_rule = deprecated_rule or []")], 'C12.COPY-IN')
-fire('c12-add-check-in-handler', 'C12',
-     [(POL, "            return OrCheck([default.check, deprecated_rule.check])", "            return OrCheck([default.check]).add_check(deprecated_rule.check)")], 'C12.MUTATORS')
+# (a new combinator over a new list, extended right there, is still new)
+silent('c12-add-check-in-handler', ['C12', 'C11'],
+       [(POL, "            return OrCheck([default.check, deprecated_rule.check])", "            return OrCheck([default.check]).add_check(deprecated_rule.check)")])
+fire('c12-add-check-to-registered-tree', 'C12',
+     [(POL, "            return OrCheck([default.check, deprecated_rule.check])",
+       "            merged = default.check if isinstance(default.check, OrCheck) else OrCheck([default.check])\n            return merged.add_check(deprecated_rule.check)")], 'C12.MUTATORS')
 fire('c12-grow-default-check', 'C12',
      [(POL, "            return OrCheck([default.check, deprecated_rule.check])",
        "            if isinstance(default.check, OrCheck):\n                default.check.rules.append(deprecated_rule.check)\n                return default.check\n            return OrCheck([default.check, deprecated_rule.check])")], 'C12')
